@@ -51,6 +51,16 @@ def run(res: C.Result):
             p["fixed"] = []
         p.pop("pre_run_edit", None) if k % 4 < 3 else None
         cases.append(p)
+    # the same lazy calculator with nobody asking for forces between the trials (the probe only looks at what the calculator holds): energy-only
+    # displacement trials mixed with Hamiltonian trials (forces + energy), long scripted runs of rejections after an acceptance
+    r7 = random.Random(res.seed ^ 0xC0411)
+    for k in range(12 if quick else 160):
+        p = progs.gen_program(r7, k, ensembles=("hamiltonian",))
+        p.update(energy_probe=True, passive_probe=True, criteria="both", calc="lazy", logfile=None, pre_run_probe=False)
+        p["arrays"] = {a: False for a in p["arrays"]} | {"momenta": True}
+        p.pop("pre_run_edit", None)
+        p["verdicts"] = [[True, False, False, False][(i + k) % 4] if i % 7 else True for i in range(len(p.get("verdicts", [])) or 40)]
+        cases.append(p)
     outs = C.run_impl_parallel("c04.py", [{"cases": cases[i::16]} for i in range(16)], timeout=3000)
     results = [None] * len(cases)
     for j, o in enumerate(outs):
